@@ -20,7 +20,7 @@ ASSUMPTIONS = [
     "temporary upload names (*.tmp) are counted, not judged",
 ]
 MONITORS = "store auditor after every step and inside a post-hook on HashFileDB.add (audits the receiving store after every add call)"
-REQUIRED_COUNTERS = ["indexes_saved_again_after_being_extended", "migrations_followed_through_a_callback", "stores_opened_through_cwd_relative_path", "downloads_failing_half_way", "inode_only_swaps", "persistent_workspace_steps", "dirs_with_several_large_files", "steps", "audits_after_step", "audits_after_add", "objects_rehashed", "dir_objects_reencoded", "op/stage-dir", "op/stage-file",
+REQUIRED_COUNTERS = ["filtered_trees_stored_in_another_store", "indexes_saved_again_after_being_extended", "migrations_followed_through_a_callback", "stores_opened_through_cwd_relative_path", "downloads_failing_half_way", "inode_only_swaps", "persistent_workspace_steps", "dirs_with_several_large_files", "steps", "audits_after_step", "audits_after_add", "objects_rehashed", "dir_objects_reencoded", "op/stage-dir", "op/stage-file",
                      "op/upload-stage", "op/add", "op/transfer", "op/save", "op/migrate", "op/gc", "staged_directory_ids_checked", "restaged_workspace_ids_checked", "saves_over_two_data_roots", "op/checkout", "op/verify-rotten", "migrations_rerun", "op/pws-stage", "op/pws-edit", "op/pws-stage-only", "local_mode_checks"]
 
 
@@ -214,6 +214,21 @@ def run_shard(ctx):
                         if obj.hash_info.value != want_:
                             res.violation("staged-directory-named-by-another-listing", f"staged {obj.hash_info.value}; the canonical listing of the directory's real names and contents hashes to {want_}",
                                           case=cur["case"], detail={"history": hist, "names": sorted("/".join(k_) for k_ in generated[p])[:8]})
+                        # a part of that directory (its sub-tree filtered by a prefix - which keeps the whole directory's identifier) is
+                        # handed to another store that does not hold the directory object yet: what gets filed under that name is the listing it names
+                        tops_ = sorted({k_[0] for k_ in generated[p] if len(k_) > 1})
+                        others_ = [s_ for s_ in stores if s_ is not st and s_["algo"] == algo]
+                        if tops_ and others_ and algo == "md5" and rng.random() < 0.5:
+                            from dvc_data.hashfile.db import add_update_tree as _aut
+
+                            try:
+                                part_ = obj.filter((rng.choice(tops_),))
+                            except Exception:  # noqa: BLE001
+                                part_ = None
+                            if part_ is not None:
+                                _aut(rng.choice(others_)["odb"], part_)
+                                res.count("filtered_trees_stored_in_another_store")
+                                rec.append("part-stored-elsewhere")
                     elif op == "stage-file":
                         p = new_ws(single=True)
                         _s, _m, obj, r = env.stage_and_transfer(odb, p, algo)
